@@ -12,12 +12,18 @@ type crashCase struct {
 	Crash   CrashSpec   `json:"crash"`
 	Recover []CrashSpec `json:"recover,omitempty"` // crashes during successive recoveries
 	AckThen bool        `json:"ack_then_crash,omitempty"`
+	// Again: after the completed recovery the process dies once more before any
+	// round published (1), or after one empty round (2); 0: not explored.
+	Again int `json:"again,omitempty"`
 }
 
 func (c *crashCase) String() string {
 	s := fmt.Sprintf("start=%d pool=%d crash=%s", c.Start, c.Pool, (&RoundPlan{Crash: &c.Crash}).String())
 	for _, r := range c.Recover {
 		s += " recovery-" + (&RoundPlan{Crash: &r}).String()
+	}
+	if c.Again > 0 {
+		s += fmt.Sprintf(" again=%d", c.Again)
 	}
 	return s
 }
@@ -93,6 +99,32 @@ func c03Recover(r *Run, env *LogEnv, cc *crashCase) {
 		env.violate("post-recovery-audit:"+p.Class, "after recovery, tree of the lock checkpoint (size %d): %s", lock.Size, p.Msg)
 	}
 	r.Count("post_recovery_audits", 1)
+	// The process may die again right after a completed recovery, before any
+	// round has published: the next start must load all the same (and an empty
+	// round in between must not change that).
+	if cc.Again > 0 {
+		if cc.Again == 2 {
+			simNow.Add(4)
+			if err, crashed := li.Sequence(nil); err != nil || crashed {
+				env.violate("sequencing-stuck-after-recovery", "empty round after recovery failed: %v", err)
+				return
+			}
+			lock = env.LockSTH()
+		}
+		li.Abandon()
+		simNow.Add(3)
+		li2, err := env.Load("Z2", nil)
+		if err != nil {
+			env.violate("restart-failed-after-recovery", "LoadLog failed when the process was restarted again right after a completed recovery (%s): %v", cc.String(), err)
+			return
+		}
+		li = li2
+		defer li2.Abandon()
+		for _, p := range env.Audit(lock.Size, lock.Timestamp, 0) {
+			env.violate("post-recovery-audit:"+p.Class, "after the second restart, tree of the lock checkpoint (size %d): %s", lock.Size, p.Msg)
+		}
+		r.Count("second_restarts_after_recovery", 1)
+	}
 	// the log keeps sequencing
 	rng := NewRng(int64(lock.Size), "c03next")
 	var subs []*Sub
@@ -226,6 +258,7 @@ func TestC03CrashEnum(t *testing.T) {
 				}
 				for _, cc := range cases {
 					n++
+					cc.Again = (n / 7) % 3
 					if !mine(n) {
 						continue
 					}
